@@ -54,8 +54,8 @@ VARIANTS = ("same", "same", "wrong", "welcome_error", "crowded", "solo",
 
 
 def configs(tier):
-    return [{"spake": "real" if i == 0 else "stub", "faults": i % 4 != 1}
-            for i in range(8)]
+    return [{"spake": "real" if i == 0 else "stub", "faults": i % 4 != 1,
+             "dilate": i in (3, 6)} for i in range(8)]
 
 
 class Truth:
@@ -102,11 +102,17 @@ def run_one(seed, tape, opts):
     w = MailboxWorld(tape, opts, welcome=welcome)
     sim = w.sim
     apis = ("deferred", "delegate")
-    a = w.add_client("A", api=tape.pick(apis, "api_a"))
+    # in 1/4 of the runs the wormholes are created with Dilation and the
+    # scripts call dilate() somewhere: close() then also has to shut the
+    # Dilation layer down, whatever state that is in
+    dil = {"dilation": True} if opts.get("dilate") else {}
+    if dil:
+        sim.no_advance_while_connecting = True
+    a = w.add_client("A", api=tape.pick(apis, "api_a"), **dil)
     clients = [a]
     b = c3 = None
     if variant != "solo":
-        b = w.add_client("B", api=tape.pick(apis, "api_b"))
+        b = w.add_client("B", api=tape.pick(apis, "api_b"), **dil)
         clients.append(b)
     if variant == "crowded":
         c3 = w.add_client("C", api=tape.pick(apis, "api_c"))
@@ -137,6 +143,9 @@ def run_one(seed, tape, opts):
         base = ca.interleave(tape, base,
                              [("send", ca.gen_payload(tape, i, c.name, False))
                               for i in range(n)])
+        if dil and c.name != "C" and tape.choose(4, "dil?"):
+            base = ca.interleave(tape, base, [
+                ("dilate", {"no_listen": tape.choose(2, "dnl") == 0})])
         style = tape.choose(4, "closestyle")
         peer = "B" if c.name == "A" else "A"
         if style == 0 and variant == "same" and c.name != "C":
